@@ -1,0 +1,40 @@
+//go:build verif
+// +build verif
+
+package ff
+
+// Verification hooks (build tag "verif"): thin exported wrappers around the portable kernels,
+// which on amd64 are otherwise reachable only from inside the package. They add no behaviour.
+
+// VerifMulGeneric calls the portable Montgomery multiplication.
+func VerifMulGeneric(z, x, y *Element) { _mulGeneric(z, x, y) }
+
+// VerifFromMontGeneric calls the portable Montgomery reduction.
+func VerifFromMontGeneric(z *Element) { _fromMontGeneric(z) }
+
+// VerifAddGeneric calls the portable addition.
+func VerifAddGeneric(z, x, y *Element) { _addGeneric(z, x, y) }
+
+// VerifDoubleGeneric calls the portable doubling.
+func VerifDoubleGeneric(z, x *Element) { _doubleGeneric(z, x) }
+
+// VerifSubGeneric calls the portable subtraction.
+func VerifSubGeneric(z, x, y *Element) { _subGeneric(z, x, y) }
+
+// VerifNegGeneric calls the portable negation.
+func VerifNegGeneric(z, x *Element) { _negGeneric(z, x) }
+
+// VerifReduceGeneric calls the portable conditional subtraction.
+func VerifReduceGeneric(z *Element) { _reduceGeneric(z) }
+
+// VerifButterflyGeneric calls the portable butterfly.
+func VerifButterflyGeneric(a, b *Element) { _butterflyGeneric(a, b) }
+
+// VerifMulByConstant calls the portable small-constant multiplication.
+func VerifMulByConstant(z *Element, c uint8) { mulByConstant(z, c) }
+
+// VerifReduce calls the active (assembly or portable) reduce.
+func VerifReduce(z *Element) { reduce(z) }
+
+// VerifSupportAdx reports the run-time dispatch flag of the multiplication.
+func VerifSupportAdx() bool { return supportAdx }
